@@ -365,9 +365,15 @@ func ruleOptionalTails(c *Ctx, x *extractor, scope []*ssa.Function) {
 	}
 	n := 0
 	found := map[string]bool{}
-	for _, f := range scope {
+	// the tolerated-end points of one function, in block order
+	type point struct {
+		blk  int
+		at   ssa.Instruction
+		call *ssa.Call // non-nil: a call of a helper whose own points are attributed to its callers
+	}
+	local := func(f *ssa.Function) []point {
+		var out []point
 		cur := clientCursor(f)
-		ord := 0
 		for _, b := range f.Blocks {
 			if len(b.Instrs) == 0 {
 				continue
@@ -378,6 +384,9 @@ func ruleOptionalTails(c *Ctx, x *extractor, scope []*ssa.Function) {
 			}
 			for idx := 0; idx < 2; idx++ {
 				for _, at := range atomsOf(iff.Cond, idx == 0) {
+					if at.Kind == "call" && at.Call != nil && at.Call.Parent() != f {
+						continue // an atom inlined from a predicate helper
+					}
 					tolerated := false
 					if _, isE := isEOMTest(at); isE && at.Pos {
 						tolerated = true
@@ -396,16 +405,62 @@ func ruleOptionalTails(c *Ctx, x *extractor, scope []*ssa.Function) {
 					if !tolerated || !succeedsFrom(b.Succs[idx]) {
 						continue
 					}
-					ord++
-					n++
-					key := fmt.Sprintf("%s/tolerates-end#%d", roleKey(c.P, f), ord)
-					found[key] = true
-					if why, ok := allowed[key]; ok {
-						c.ok(rid, key, c.P.instrPos(iff), "confirmed optional tail: "+why)
-					} else {
-						c.bad(rid, key, c.P.instrPos(iff), "end of arguments is tolerated here and the command still proceeds; this point is not in the confirmed inventory: a required argument became optional (the handler would run with an invented default)")
+					out = append(out, point{blk: b.Index, at: iff})
+				}
+			}
+		}
+		return out
+	}
+	// helpers with tolerated-end points that the inventory does not know by their role: their
+	// points count for every function that calls them (an "optional next argument" helper is
+	// as optional as each of its uses)
+	inScope := scopeSet(scope)
+	transparent := map[*ssa.Function]bool{}
+	for _, f := range scope {
+		if strings.HasPrefix(roleKey(c.P, f), "executor:") {
+			continue
+		}
+		pts := local(f)
+		if len(pts) == 0 {
+			continue
+		}
+		known := false
+		for i := range pts {
+			if _, ok := allowed[fmt.Sprintf("%s/tolerates-end#%d", roleKey(c.P, f), i+1)]; ok {
+				known = true
+			}
+		}
+		if _, only := c.P.onlyStaticallyCalled(f); !known && only {
+			transparent[f] = true
+		}
+	}
+	for _, f := range scope {
+		if transparent[f] {
+			continue
+		}
+		pts := local(f)
+		allInstrs(f, func(ins ssa.Instruction) {
+			if call, ok := ins.(*ssa.Call); ok {
+				if callee := staticCallee(call.Common()); callee != nil && inScope[callee] && transparent[callee] {
+					for range local(callee) {
+						pts = append(pts, point{blk: call.Block().Index, at: call, call: call})
 					}
 				}
+			}
+		})
+		sort.SliceStable(pts, func(i, j int) bool { return pts[i].blk < pts[j].blk })
+		for i, pt := range pts {
+			n++
+			key := fmt.Sprintf("%s/tolerates-end#%d", roleKey(c.P, f), i+1)
+			found[key] = true
+			why, ok := allowed[key]
+			switch {
+			case ok && pt.call != nil:
+				c.ok(rid, key, c.P.instrPos(pt.at), "confirmed optional tail (through "+fnName(staticCallee(pt.call.Common()))+"): "+why)
+			case ok:
+				c.ok(rid, key, c.P.instrPos(pt.at), "confirmed optional tail: "+why)
+			default:
+				c.bad(rid, key, c.P.instrPos(pt.at), "end of arguments is tolerated here and the command still proceeds; this point is not in the confirmed inventory: a required argument became optional (the handler would run with an invented default)")
 			}
 		}
 	}
@@ -768,7 +823,7 @@ func ruleSetExclusivity(c *Ctx) {
 		})
 	}
 	c.count("set-option-stores", n)
-	c.floor("set-option-stores", 8)
+	c.floor("set-option-stores", 6)
 	// expiry stores outside an option loop (SETEX-style executors): the stored number is >= 1 by
 	// the tests of whichever helper read it
 	nex := 0
@@ -959,7 +1014,7 @@ func ruleNoReadAfterHandler(c *Ctx, x *extractor, scope []*ssa.Function) {
 		}
 	}
 	c.count("executors-with-handler-calls", n)
-	c.floor("executors-with-handler-calls", 50)
+	c.floor("executors-with-handler-calls", 40)
 }
 
 // buildsErrorOnly: every return of fn is a freshly formatted error (fmt.Errorf / errors.New).
